@@ -1605,6 +1605,9 @@ impl ContinuityStore {
                 Err(_) => break,
             }
 
+            if tail_bytes >= MAX_TAIL_BYTES {
+                break;
+            }
             tail_bytes = (tail_bytes * 2).min(MAX_TAIL_BYTES);
         }
 
@@ -1777,6 +1780,7 @@ impl ContinuityStore {
 
         let mut tail_bytes = INITIAL_TAIL_BYTES;
         let mut scanned_sidecar = false;
+        let mut tail_complete = false;
         #[cfg(rip_verif)]
         rip_kernel::verif::point("scan.enter", "cursor_status.tail");
         while tail_bytes <= MAX_TAIL_BYTES {
@@ -1835,6 +1839,9 @@ impl ContinuityStore {
                         }
                     }
 
+                    if tail.complete {
+                        tail_complete = true;
+                    }
                     if tail.complete || by_key.len() >= MAX_KEYS {
                         break;
                     }
@@ -1843,14 +1850,21 @@ impl ContinuityStore {
                 Err(_) => break,
             }
 
+            if tail_bytes >= MAX_TAIL_BYTES {
+                break;
+            }
             tail_bytes = (tail_bytes * 2).min(MAX_TAIL_BYTES);
         }
 
-        if !scanned_sidecar {
+        // A bounded tail that neither reached the start of the stream nor filled the key budget
+        // cannot answer on its own: fall back to the full stream.
+        if !scanned_sidecar || (!tail_complete && by_key.len() < MAX_KEYS) {
             let events = self
                 .replay_events(thread_id)
                 .map_err(|err| format!("continuity replay failed: {err}"))?;
 
+            active = None;
+            by_key.clear();
             for event in events.iter().rev() {
                 let EventKind::ContinuityProviderCursorUpdated {
                     provider,
@@ -1998,6 +2012,9 @@ impl ContinuityStore {
                 Ok(None) => break,
                 Err(_) => break,
             }
+            if tail_bytes >= MAX_TAIL_BYTES {
+                break;
+            }
             tail_bytes = (tail_bytes * 2).min(MAX_TAIL_BYTES);
         }
 
@@ -2093,6 +2110,8 @@ impl ContinuityStore {
             {
                 Ok(Some(tail)) => {
                     scanned_sidecar = true;
+                    // Each wider window re-reads the tail from the end: start over.
+                    decisions.clear();
                     for event in tail.events.iter().rev() {
                         let EventKind::ContinuityContextSelectionDecided {
                             run_session_id,
@@ -2171,6 +2190,9 @@ impl ContinuityStore {
                 Err(_) => break,
             }
 
+            if tail_bytes >= MAX_TAIL_BYTES {
+                break;
+            }
             tail_bytes = (tail_bytes * 2).min(MAX_TAIL_BYTES);
         }
 
